@@ -138,12 +138,16 @@ func packPPTPayload(options wamp.Dict, args wamp.List, kwargs wamp.Dict) (wamp.L
 }
 
 func unpackPPTPayload(details wamp.Dict, args wamp.List) (wamp.List, wamp.Dict, error) {
+	if len(args) == 0 {
+		return nil, nil, ErrSerialization
+	}
 	var payloadTyped *wamp.PassthruPayload
 	pptSerializerStr, ok := details[wamp.OptPPTSerializer]
 	if ok && pptSerializerStr != "native" {
 
 		var serializer serialize.Serializer
-		pptSerializer, ok := PPTSerializers[pptSerializerStr.(string)]
+		pptSerializerName, _ := pptSerializerStr.(string)
+		pptSerializer, ok := PPTSerializers[pptSerializerName]
 		if !ok {
 			return nil, nil, ErrPPTSerializerInvalid
 		}
@@ -159,12 +163,19 @@ func unpackPPTPayload(details wamp.Dict, args wamp.List) (wamp.List, wamp.Dict, 
 			// In future should be extended with FlatBuffers
 		}
 
-		if err := serializer.DeserializeDataItem(args[0].([]byte), &payloadTyped); err != nil {
+		bin, ok := args[0].([]byte)
+		if !ok {
+			return nil, nil, ErrSerialization
+		}
+		if err := serializer.DeserializeDataItem(bin, &payloadTyped); err != nil {
 			return nil, nil, ErrSerialization
 		}
 
 	} else {
-		payloadTyped = args[0].(*wamp.PassthruPayload)
+		payloadTyped, _ = args[0].(*wamp.PassthruPayload)
+	}
+	if payloadTyped == nil {
+		return nil, nil, ErrSerialization
 	}
 
 	return payloadTyped.Arguments, payloadTyped.ArgumentsKw, nil
@@ -199,8 +210,12 @@ func packE2EEPayload(options wamp.Dict, args wamp.List, kwargs wamp.Dict) (wamp.
 }
 
 func unpackE2EEPayload(details wamp.Dict, args wamp.List) (wamp.List, wamp.Dict, error) {
+	if len(args) == 0 {
+		return nil, nil, ErrSerialization
+	}
 	var serializer serialize.Serializer
-	pptSerializer, ok := E2eeSerializers[details[wamp.OptPPTSerializer].(string)]
+	pptSerializerName, _ := details[wamp.OptPPTSerializer].(string)
+	pptSerializer, ok := E2eeSerializers[pptSerializerName]
 	if !ok {
 		return nil, nil, ErrPPTSerializerInvalid
 	}
@@ -212,8 +227,12 @@ func unpackE2EEPayload(details wamp.Dict, args wamp.List) (wamp.List, wamp.Dict,
 		// In future should be extended with FlatBuffers
 	}
 
+	bin, ok := args[0].([]byte)
+	if !ok {
+		return nil, nil, ErrSerialization
+	}
 	var payloadTyped wamp.PassthruPayload
-	if err := serializer.DeserializeDataItem(args[0].([]byte), &payloadTyped); err != nil {
+	if err := serializer.DeserializeDataItem(bin, &payloadTyped); err != nil {
 		return nil, nil, ErrSerialization
 	}
 
